@@ -15,7 +15,8 @@ ALPHA = {'a': 'Ch 0', 'é': 'Ch 1', '<': 'Ch 2', '&': 'Ch 3', ' ': 'Sp', '\t': '
 
 
 def cs(s):
-    return '[' + ';'.join(ALPHA[c] for c in s) + ']'
+    # any other character gets the next free small index (characters are opaque to the model)
+    return '[' + ';'.join(ALPHA.setdefault(c, 'Ch %d' % (len(ALPHA) + 10)) for c in s) + ']'
 
 
 def abs_items(elem_xml):
@@ -64,13 +65,23 @@ def gen_inputs(tier, rng):
             s = ''.join(tup)
             for cut in range(0, n + 1):
                 inputs.append((('Paragraph', 'Span', 'Header')[k % 3], [s[:cut], s[cut:]])); k += 1
+    # edge stream: long runs of spaces (the text:s count gets several decimal digits), leading / inner / trailing,
+    # alone and next to tabs / newlines, whole or cut inside the run
+    runs = list(range(2, 31)) + [99, 100, 101, 110, 199, 200, 201, 999, 1000, 1001] if tier != "quick" else \
+        [2, 3, 8, 9, 10, 11, 12, 19, 20, 21, 22, 99, 100, 101, 199, 200, 1000]
+    for n in runs:
+        sp = ' ' * n
+        for s, cut in ((sp + 'b', n // 2), ('a' + sp + 'b', 1 + n // 2), ('a' + sp, n), ('\t' + sp + '\n', n), (sp, n - 1)):
+            inputs.append((('Paragraph', 'Span', 'Header')[k % 3], [s])); k += 1
+            inputs.append((('Paragraph', 'Span', 'Header')[k % 3], [s[:cut], s[cut:]])); k += 1
     exhaustive_part = len(inputs)
     syms = 'aé<&"Z 中 \t\n    '
     for _ in range(1500 if tier == "quick" else 60000):
         n = rng.randint(0, 12 if tier == "quick" else 40)
         s = ''.join(rng.choice(syms) for _ in range(n))
         k = rng.randint(0, 3); cuts = sorted(rng.randint(0, n) for _ in range(k))
-        inputs.append((rng.choice(['Paragraph', 'Span', 'Header']), [s[i:j] for i, j in zip([0] + cuts, cuts + [n])]))
+        inputs.append((rng.choice(['Paragraph', 'Span', 'Header']), [s[i:j] for i, j in zip([0] + cuts, cuts + [n])],
+                       rng.choice(['append', 'ctor', 'plain'])))
     return inputs, exhaustive_part
 
 
@@ -87,17 +98,23 @@ def run(tier, seed, replay=None):
     else:
         inputs, nexh = gen_inputs(tier, rng)
         inputs = corpus + inputs
-    cases, hist, impl_errors = [], {}, []
-    for idx, (cls, pieces) in enumerate(inputs):
+    cases, hist, impl_errors, modes = [], {}, [], {}
+    inputs = [tuple(x) if len(x) == 3 else (x[0], x[1], ('append', 'ctor')[i % 2]) for i, x in enumerate(inputs)]
+    for idx, (cls, pieces, mode) in enumerate(inputs):
         try:
-            p = {'Paragraph': Paragraph, 'Span': Span, 'Header': lambda: Header(1)}[cls]()
-            for pc in pieces: p.append(pc)
+            # mode ctor: the first piece goes through the constructor; plain: append_plain_text is called directly
+            first = pieces[:1] if mode == 'ctor' else []
+            rest = pieces[1:] if mode == 'ctor' else pieces
+            p = {'Paragraph': lambda *a: Paragraph(*a), 'Span': lambda *a: Span(*a), 'Header': lambda *a: Header(1, *a)}[cls](*first)
+            for pc in rest:
+                if mode == 'plain': p.append_plain_text(pc)
+                else: p.append(pc)
             xml = p.serialize(); back = Element.from_tag(xml)
             cases.append('([%s], %s, %s, %s)' % (';'.join(cs(x) for x in pieces), abs_items(xml), cs(p.inner_text), cs(back.inner_text)))
         except Exception as e:  # the implementation fails on an input of the property's domain
             impl_errors.append((idx, repr(e)))
             cases.append('([%s], [], [Ch 99], [Ch 99])' % ';'.join(cs(x) for x in pieces))
-        hist[cls] = hist.get(cls, 0) + 1
+        hist[cls] = hist.get(cls, 0) + 1; modes[mode] = modes.get(mode, 0) + 1
     bad, errors = common.run_shards(HEADER, cases, "chk", "c05")
     violations = []
     hard = {i: c for i, c in bad.items() if c != 4}
@@ -113,9 +130,9 @@ def run(tier, seed, replay=None):
                       "ODF 1.2 section 6.1.2 consumer as modelled in WS.consume (LibreOffice reading: text:s / text:tab / text:line-break are non-collapsible and reset the collapse state)",
                       "modelled in WS.v: Paragraph._expand_spaces/_merge_spaces/_sub_merge_spaces/_replace_tabs_lb/append_plain_text, Element.__append for strings, inner_text of text:s/tab/line-break"],
         evaluations=len(cases), distinct_nontrivial=distinct,
-        rule="all strings over {space,a,tab,newline} up to length %d as one piece; all 2-splits of all strings over {space,a,tab} up to length %d; random strings over 12 symbols (XML-special, non-ASCII, NBSP) cut into 1-4 appends, on Paragraph/Span/Header; corpus first. non-trivial = contains white space; distinct = distinct (class, pieces)"
+        rule="all strings over {space,a,tab,newline} up to length %d as one piece; all 2-splits of all strings over {space,a,tab} up to length %d; random strings over 12 symbols (XML-special, non-ASCII, NBSP) cut into 1-4 appends, on Paragraph/Span/Header, the first piece through the constructor or through append or append_plain_text; corpus first. non-trivial = contains white space; distinct = distinct (class, pieces)"
              % ((4, 3) if tier == "quick" else (6, 5)),
-        samples=[dict(cls=c, pieces=p) for c, p in inputs[nexh + len(corpus):][:3]], classes=hist,
+        samples=[dict(cls=c, pieces=p, mode=m) for c, p, m in inputs[nexh + len(corpus):][:3]], modes=modes, classes=hist,
         exhaustive_prefix_cases=nexh, corpus_cases=len(corpus),
         fidelity_divergences=sum(1 for c in bad.values() if c == 4), implementation_exceptions=len(impl_errors),
         exhaustive=False)
